@@ -308,17 +308,27 @@ static void DecodeCond(Word Index) {
 }
 
 static void DecodeZero(Word Index) {
-    Boolean IndFlag, OK;
+    Boolean      IndFlag, OK;
+    Word         Address;
+    tSymbolFlags Flags;
 
     if (ChkArgCnt(1, 1)) {
         BAsmCode[0] = Index;
         IndFlag     = *ArgStr[1].str.p_str == '*';
-        BAsmCode[1] = EvalStrIntExpressionOffs(&ArgStr[1], IndFlag, UInt7, &OK);
+        Address = EvalStrIntExpressionOffsWithFlags(&ArgStr[1], IndFlag, UInt13, &OK, &Flags);
         if (OK) {
-            if (IndFlag) {
-                BAsmCode[1] |= 0x80;
+            /* displacement is a signed 7 bit value relative to byte 0 of page 0,
+               wrapping around within the page: reachable are 0..63 and 8128..8191 */
+
+            if ((Address > 63) && (Address < 0x1fc0) && !mFirstPassUnknownOrQuestionable(Flags)) {
+                WrStrErrorPos(ErrNum_OverRange, &ArgStr[1]);
+            } else {
+                BAsmCode[1] = Address & 0x7f;
+                if (IndFlag) {
+                    BAsmCode[1] |= 0x80;
+                }
+                CodeLen = 2;
             }
-            CodeLen = 2;
         }
     }
 }
